@@ -171,7 +171,13 @@ def check(idx: Index, rep: Report, tier: str) -> str:
     qc = [c for c in calls_in(pop_loops[0]) if call_attr(c) == "D_PopOp"][0]
     reg_p, reg_q = unparse(push_loops[0].target), unparse(pop_loops[0].target)
     same_reg = f"GetRegisterOp({reg_p})" in unparse(push_loops[0]) and f"destination={reg_q}" in unparse(qc)
-    if same_reg and "for block in func.body.blocks:" in t and "isinstance(ret_op, x86_func.RetOp)" in t and "InsertPoint.before(ret_op)" in t:
+    fparam = f.node.args.args[1].arg
+    outer = [w for w in walk_local(f.node) if isinstance(w, ast.For) and unparse(w.iter) == f"{fparam}.body.blocks" and any(x is pop_loops[0] for x in ast.walk(w))]
+    from ..astutil import text_facts as _tf21
+
+    ret_names = [m_.group(1) for t_, p_ in _tf21(f.node, pop_loops[0]) if p_ and (m_ := re.fullmatch(r"isinstance\((\w+), x86_func\.RetOp\)", t_))]
+    before_ret = bool(outer) and any(f"InsertPoint.before({rn})" in unparse(outer[-1]) for rn in ret_names)
+    if same_reg and before_ret:
         r.ok(f.fq + ":returns", f"{f.loc} every RetOp is preceded by the pops of the pushed registers")
     else:
         r.fail(f.fq + ":returns", Finding("C21.R3", f.fq, "epilogue-missing", "not every return is preceded by an epilogue restoring the pushed registers", f.loc))
